@@ -180,7 +180,7 @@ theorem ac_write_condition (w : World) (req : Request) (i : Inner) (o : ExecOrac
     (r.world.acCalls = w.acCalls ∨ r.world.acCalls = w.acCalls + 1) ∧
     (cacheable req r.flushed ↔
       (req.digestValid = true ∧ req.actionPresent = true ∧ req.doNotCache = false ∧
-        i.resp.status = none ∧ i.resp.exitCode = 0 ∧ r.flushErr = none)) := by
+        i.resp.status.err = none ∧ i.resp.exitCode = 0 ∧ r.flushErr = none)) := by
   intro r
   have hc := cachingPost_acCalls
     { w with store := (flushingPost (runPuts w.store i.puts).1 i.resp o.flush).1 } req
@@ -194,18 +194,18 @@ theorem ac_write_condition (w : World) (req : Request) (i : Inner) (o : ExecOrac
     simp [cacheable]
   | some c =>
     rw [flushingPost_some _ _ _ c hf]
-    cases hs : i.resp.status <;> simp [cacheable, attachError, hs]
+    cases hs : i.resp.status.err <;> simp [cacheable, attachError, hs]
 
 /-- The Action Cache changes only by that one write, and only if it succeeds. -/
 theorem ac_log (w : World) (req : Request) (i : Inner) (o : ExecOracle) :
     let r := execute w req i o
-    (r.world.ac = entryOf req r.flushed :: w.ac ∧ cacheable req r.flushed ∧ o.ac = none ∧ r.final.status = none) ∨
+    (r.world.ac = entryOf req r.flushed :: w.ac ∧ cacheable req r.flushed ∧ o.ac = none ∧ r.final.status.err = none) ∨
     (r.world.ac = w.ac ∧ (¬ cacheable req r.flushed ∨ o.ac ≠ none)) := by
   intro r
   show ((cachingPost { w with store := (flushingPost (runPuts w.store i.puts).1 i.resp o.flush).1 } req
       (flushingPost (runPuts w.store i.puts).1 i.resp o.flush).2.1 o.ac o.hist).1.ac = _ ∧ _ ∧ _ ∧
       (cachingPost { w with store := (flushingPost (runPuts w.store i.puts).1 i.resp o.flush).1 } req
-      (flushingPost (runPuts w.store i.puts).1 i.resp o.flush).2.1 o.ac o.hist).2.status = none) ∨
+      (flushingPost (runPuts w.store i.puts).1 i.resp o.flush).2.1 o.ac o.hist).2.status.err = none) ∨
     ((cachingPost { w with store := (flushingPost (runPuts w.store i.puts).1 i.resp o.flush).1 } req
       (flushingPost (runPuts w.store i.puts).1 i.resp o.flush).2.1 o.ac o.hist).1.ac = _ ∧ _)
   show (_ = entryOf req (flushingPost (runPuts w.store i.puts).1 i.resp o.flush).2.1 :: w.ac ∧
@@ -215,7 +215,7 @@ theorem ac_log (w : World) (req : Request) (i : Inner) (o : ExecOracle) :
   generalize (flushingPost (runPuts w.store i.puts).1 i.resp o.flush).1 = st
   unfold cachingPost cacheable isSuccessful attachError
   cases hdv : req.digestValid <;> cases hap : req.actionPresent <;> cases hdc : req.doNotCache <;>
-    cases hs : fr.status <;> cases hac : o.ac <;> cases hh : o.hist <;>
+    cases hs : fr.status.err <;> cases hac : o.ac <;> cases hh : o.hist <;>
     by_cases he : fr.exitCode = 0 <;> simp [he, hs]
 
 /-- **ac_complete.**  If the Action Cache write is issued, then the result that
@@ -259,31 +259,31 @@ of the caching layer (invalid request, failed AC Put, failed Put of the
 historical response). -/
 theorem first_error_wins (w : World) (req : Request) (i : Inner) (o : ExecOracle) :
     let r := execute w req i o
-    r.flushed.status = firstErr i.resp.status r.flushErr ∧
-    r.final.status = firstErr i.resp.status (firstErr r.flushErr (cachingError req r.flushed o)) := by
+    r.flushed.status.err = firstErr i.resp.status.err r.flushErr ∧
+    r.final.status.err = firstErr i.resp.status.err (firstErr r.flushErr (cachingError req r.flushed o)) := by
   intro r
-  have h1 : r.flushed.status = firstErr i.resp.status r.flushErr := by
-    show (flushingPost (runPuts w.store i.puts).1 i.resp o.flush).2.1.status =
-      firstErr i.resp.status (flushingPost (runPuts w.store i.puts).1 i.resp o.flush).2.2
+  have h1 : r.flushed.status.err = firstErr i.resp.status.err r.flushErr := by
+    show (flushingPost (runPuts w.store i.puts).1 i.resp o.flush).2.1.status.err =
+      firstErr i.resp.status.err (flushingPost (runPuts w.store i.puts).1 i.resp o.flush).2.2
     cases hf : (flusher (runPuts w.store i.puts).1 o.flush).2 with
     | none =>
       rw [flushingPost_none _ _ _ hf]
-      cases hs : i.resp.status <;> simp [firstErr]
+      cases hs : i.resp.status.err <;> simp [firstErr]
     | some c =>
       rw [flushingPost_some _ _ _ c hf]
-      cases hs : i.resp.status <;> simp [firstErr, attachError, hs]
+      cases hs : i.resp.status.err <;> simp [firstErr, attachError, hs]
   refine ⟨h1, ?_⟩
-  have h2 : r.final.status = firstErr r.flushed.status (cachingError req r.flushed o) := by
-    show (cachingPost _ req (flushingPost (runPuts w.store i.puts).1 i.resp o.flush).2.1 o.ac o.hist).2.status =
-      firstErr (flushingPost (runPuts w.store i.puts).1 i.resp o.flush).2.1.status
+  have h2 : r.final.status.err = firstErr r.flushed.status.err (cachingError req r.flushed o) := by
+    show (cachingPost _ req (flushingPost (runPuts w.store i.puts).1 i.resp o.flush).2.1 o.ac o.hist).2.status.err =
+      firstErr (flushingPost (runPuts w.store i.puts).1 i.resp o.flush).2.1.status.err
         (cachingError req (flushingPost (runPuts w.store i.puts).1 i.resp o.flush).2.1 o)
     generalize (flushingPost (runPuts w.store i.puts).1 i.resp o.flush).2.1 = fr
     unfold cachingPost cachingError attachError firstErr
     cases hdv : req.digestValid <;> cases hap : req.actionPresent <;> cases hdc : req.doNotCache <;>
-      cases hs : fr.status <;> cases hac : o.ac <;> cases hh : o.hist <;>
+      cases hs : fr.status.err <;> cases hac : o.ac <;> cases hh : o.hist <;>
       cases hsucc : isSuccessful fr <;> simp [hs]
   rw [h2, h1]
-  cases i.resp.status <;> cases r.flushErr <;> simp [firstErr]
+  cases i.resp.status.err <;> cases r.flushErr <;> simp [firstErr]
 
 /-- **failure_prunes.**  If anything went wrong on the storage path of the
 execution — a Put of the inner executor returned an error, any `flushLocked`
@@ -297,7 +297,7 @@ theorem failure_prunes (w : World) (req : Request) (i : Inner) (o : ExecOracle) 
     let r := execute w req i o
     (((∃ e ∈ r.putLog, e.2 ≠ none) ∨ w.store.errorsRecorded < r.world.store.errorsRecorded ∨
         w.store.flushError ≠ none ∨ r.flushErr ≠ none) →
-      r.flushErr ≠ none ∧ r.final.status ≠ none ∧ r.world.acCalls = w.acCalls ∧ r.world.ac = w.ac) ∧
+      r.flushErr ≠ none ∧ r.final.status.err ≠ none ∧ r.world.acCalls = w.acCalls ∧ r.world.ac = w.ac) ∧
     (r.flushErr ≠ none →
       r.final.files = [] ∧ r.final.dirs = [] ∧ r.final.stdout = none ∧ r.final.stderr = none ∧
       r.final.logs = []) := by
@@ -308,19 +308,19 @@ theorem failure_prunes (w : World) (req : Request) (i : Inner) (o : ExecOracle) 
     rw [cachingPost_store]
     exact flushingPost_store _ _ _
   have hfail : r.flushErr ≠ none →
-      r.final.status ≠ none ∧ r.world.acCalls = w.acCalls ∧ r.world.ac = w.ac := by
+      r.final.status.err ≠ none ∧ r.world.acCalls = w.acCalls ∧ r.world.ac = w.ac := by
     intro hne
-    have hst : r.flushed.status ≠ none := by
+    have hst : r.flushed.status.err ≠ none := by
       rw [(first_error_wins w req i o).1]
-      cases hs : i.resp.status with
+      cases hs : i.resp.status.err with
       | some c => simp [firstErr]
       | none =>
         cases hf : (execute w req i o).flushErr with
         | none => exact absurd hf hne
         | some c => simp [firstErr]
-    have hfinal : r.final.status ≠ none := by
+    have hfinal : r.final.status.err ≠ none := by
       rw [(first_error_wins w req i o).2]
-      cases hs : i.resp.status with
+      cases hs : i.resp.status.err with
       | some c => simp [firstErr]
       | none =>
         cases hf : r.flushErr with
@@ -363,10 +363,10 @@ theorem failure_prunes (w : World) (req : Request) (i : Inner) (o : ExecOracle) 
 reported too, and a failed AC Put leaves the Action Cache unchanged. -/
 theorem caching_failure_reported (w : World) (req : Request) (i : Inner) (o : ExecOracle)
     (h : cachingError req (execute w req i o).flushed o ≠ none) :
-    (execute w req i o).final.status ≠ none ∧ (execute w req i o).world.ac = w.ac := by
+    (execute w req i o).final.status.err ≠ none ∧ (execute w req i o).world.ac = w.ac := by
   refine ⟨?_, ?_⟩
   · rw [(first_error_wins w req i o).2]
-    cases i.resp.status <;> cases (execute w req i o).flushErr <;> simp [firstErr, h]
+    cases i.resp.status.err <;> cases (execute w req i o).flushErr <;> simp [firstErr, h]
   · rcases ac_log w req i o with h1 | h1
     · obtain ⟨_, hc, hac, _⟩ := h1
       exfalso; apply h
@@ -377,7 +377,7 @@ theorem caching_failure_reported (w : World) (req : Request) (i : Inner) (o : Ex
 
 /-! ## Non-vacuity: concrete executions that meet the hypotheses -/
 
-private def okResp : Response := ⟨none, 0, [1, 2], [3], some 4, none, [], 0⟩
+private def okResp : Response := ⟨.unset, 0, [1, 2], [3], some 4, none, [], 0⟩
 private def okReq : Request := ⟨true, true, false, 7⟩
 private def w0 : World := World.init 2 [3]
 private def puts4 : List PutCall :=
@@ -397,7 +397,7 @@ example : (4, none) ∈ (runPuts w0.store puts4).2 := by decide
 -- a failing underlying Put: third Put returns the error, the flush reports it, nothing is cached, outputs pruned
 example : (execute w0 okReq ⟨putsFail, okResp⟩ oOK).putLog = [(1, none), (2, none), (4, some 14)] := by decide
 example : (execute w0 okReq ⟨putsFail, okResp⟩ oOK).flushErr = some 14 := by decide
-example : (execute w0 okReq ⟨putsFail, okResp⟩ oOK).final.status = some 14 := by decide
+example : (execute w0 okReq ⟨putsFail, okResp⟩ oOK).final.status.err = some 14 := by decide
 example : (execute w0 okReq ⟨putsFail, okResp⟩ oOK).world.ac = [] := by decide
 example : (execute w0 okReq ⟨putsFail, okResp⟩ oOK).final.files = [] := by decide
 -- a history with a flusher call in the middle: only the Puts after it count as "acknowledged since"
@@ -412,6 +412,13 @@ example : (execute w0 okReq ⟨[⟨1, 10, .ok⟩, ⟨2, 11, .ok⟩], okResp⟩
     ⟨{ fm := none, puts := [.acquireFailed canceled] }, none, none⟩).world.acCalls = 0 := by decide
 example : (execute w0 okReq ⟨[⟨1, 10, .ok⟩, ⟨2, 11, .ok⟩], okResp⟩
     ⟨{ fm := none, puts := [.put 1 none, .acquireFailed canceled] }, none, none⟩).world.store.consumed.length = 2 := by decide
+-- success reported as an explicit `Status{code: OK}` (with a message): a failing final flush is still attached
+example : (execute w0 okReq ⟨[⟨1, 10, .ok⟩], { okResp with status := .ok true }⟩
+    ⟨{ fm := some 14, puts := [] }, none, none⟩).final.status.err = some 14 := by decide
+example : (execute w0 okReq ⟨[⟨1, 10, .ok⟩], { okResp with status := .ok true }⟩
+    ⟨{ fm := some 14, puts := [] }, none, none⟩).world.acCalls = 0 := by decide
+example : (execute w0 okReq ⟨[⟨1, 10, .ok⟩], { okResp with status := .ok false }⟩
+    ⟨{ fm := none, puts := [.put 1 none] }, none, none⟩).world.acCalls = 1 := by decide
 -- a failing AC Put is a caching-layer error
 example : cachingError okReq (execute w0 okReq ⟨puts4, okResp⟩ ⟨{ fm := none, puts := [.put 4 none] }, some 14, none⟩).flushed
     ⟨{ fm := none, puts := [.put 4 none] }, some 14, none⟩ = some 14 := by decide
